@@ -138,6 +138,7 @@ type Engine struct {
 	netUp        bool
 	netConns     []*netConn
 	netByPtr     map[*value]*netConn
+	httpSt       *httpState
 }
 
 var E *Engine
@@ -188,6 +189,7 @@ func (e *Engine) resetPath() {
 	e.netUp = false
 	e.netConns = nil
 	e.netByPtr = nil
+	e.httpSt = nil
 }
 
 // endPath terminates the current path with the given outcome.
